@@ -171,12 +171,13 @@ theorem C02_unordered_pairing_fails :
 
   Kinds (`fileKind`): text and rich text → "s", number → "n", boolean → "b", error → "e", blank → "";
   value text = `valueText` (`CellRawValue: Display`): the text, the concatenation of the run texts, the
-  number token, TRUE / FALSE, the error code.  Two documented deviations from the plain table `docKind`
-  (what `get_data_type` says) are part of `fileKind` and are shown to be real by the `_fails` theorems:
-  a formula without cached value reads as an empty string result, an unresolved lazy value as an empty
-  number (or an empty string under a formula).  NOT needed as hypotheses here, although C01 needs them:
-  rich text under a formula (written as `str` with the concatenated run texts — kind and value text still
-  agree) and rich text without runs (an `<si>` without `<t>`/`<r>` — the empty text).
+  number token, TRUE / FALSE, the error code — both of the value `Cell::write_to` writes (`resolveRaw`: a value
+  stored with `set_value_lazy` and never resolved stands for what `guess_typed_data` makes of its text, fix 6 of
+  C01; every other value is itself).  One documented deviation from the plain table `docKind`
+  (what `get_data_type` says) is part of `fileKind` and is shown to be real by a `_fails` theorem:
+  a formula without cached value reads as an empty string result.  NOT needed as a hypothesis here, although C01
+  needs it: rich text without runs (an `<si>` without `<t>`/`<r>` — the empty text).  A rich text under a formula
+  is a shared-string item like any other rich text (fix 5 of C01).
   No hypothesis on characters, numbers (`NumFmt.Sound` is not used), table state or sizes.
 -/
 
@@ -260,28 +261,29 @@ theorem C02_cell_written (F : NumFmt) (tbl : Table) (c : Cell F.Num) (hc : 1 ≤
   obtain ⟨cx, rfl⟩ := hx hb
   exact ⟨tbl', cx, hw⟩
 
-/- Full statement with the PLAIN kind table (`docKind` = `CellRawValue::get_data_type`):
-     writeTo F tbl c = some (tbl', some cx) → … (decodeCell … node).1.kind = docKind F c.raw
-   It is false for a formula without cached value and for an unresolved lazy value (next two theorems);
-   it holds for every other cell: -/
+/- Full statement with the PLAIN kind table (`docKind` = `CellRawValue::get_data_type`, of the value written):
+     writeTo F tbl c = some (tbl', some cx) → … (decodeCell … node).1.kind = docKind F (resolveRaw F c.raw)
+   It is false for a formula without cached value (next theorem); it holds for every other cell: -/
 theorem C02_cell_kind_partial (F : NumFmt) (xf : Nat) (c : Cell F.Num) (hk : plainKind F c = true) :
-    (fileView F xf c).kind = docKind F c.raw := by
+    (fileView F xf c).kind = docKind F (resolveRaw F c.raw) := by
   obtain ⟨col, row, raw, fo, styled⟩ := c
-  cases raw <;> simp [plainKind] at hk <;> simp [fileView, fileKind, docKind, hk]
+  simp only [fileView, fileViewCore, Cell.resolved, plainKind] at hk ⊢
+  cases hr : resolveRaw F raw <;> simp [hr] at hk <;> simp [fileKind, docKind, hk]
 
 /-- `C02_cell_decodes` with the plain kind table spelled out — the statement of the property for one cell:
     the decoded cell has exactly the cell's reference, its kind by the table text / rich text → "s",
-    number → "n", boolean → "b", error → "e", blank → "", its value text, its formula text and its style.
-    `plainKind` (decidable) excludes exactly a formula without cached value and an unresolved lazy value;
-    both exclusions are necessary (`C02_cell_uncached_formula_fails`, `C02_cell_lazy_fails`). -/
+    number → "n", boolean → "b", error → "e", blank → "", its value text, its formula text and its style
+    (kind and value text of the value written: `resolveRaw`, the identity except on an unresolved lazy value).
+    `plainKind` (decidable) excludes exactly a formula without cached value; the exclusion is necessary
+    (`C02_cell_uncached_formula_fails`). -/
 theorem C02_cell_decodes_plain_partial (F : NumFmt) (tbl : Table) (c : Cell F.Num) (tbl' : Table) (cx : CellX)
     (h : writeTo F tbl c = some (tbl', some cx)) (xf : Nat) (hk : plainKind F c = true) :
     ∃ node, cellNode xf cx = some node ∧
       ∀ tbl'' : Table, Extends tbl'' tbl' →
         ∃ pkg, sstParts (tbl''.map siOf) = some pkg ∧
           decodeCell (sharedStrings pkg sstPath) node =
-            ({ ref := coordinateFromIndexWithLock c.col c.row false false, kind := docKind F c.raw,
-               value := valueText F c.raw, formula := c.formula, style := if c.styled then xf else 0 }, []) := by
+            ({ ref := coordinateFromIndexWithLock c.col c.row false false, kind := docKind F (resolveRaw F c.raw),
+               value := valueText F (resolveRaw F c.raw), formula := c.formula, style := if c.styled then xf else 0 }, []) := by
   obtain ⟨_, node, hn, hd⟩ := C02_cell_decodes F tbl c tbl' cx h xf
   refine ⟨node, hn, fun tbl'' hx => ?_⟩
   obtain ⟨pkg, hp, hdec⟩ := hd tbl'' hx
@@ -303,31 +305,45 @@ theorem C02_cell_uncached_formula_fails (F : NumFmt) :
   rw [hd tbl'' hx]
   exact ⟨rfl, rfl⟩
 
-/-- A value stored with `set_value_lazy` and never resolved (C01's known finding `C01_lazy_fails`) is written
-    as an empty `<v></v>` without `t`: an independent reader sees a NUMBER cell with empty content, whatever
-    the stored text was; the workbook says kind "" (no value). -/
-theorem C02_cell_lazy_fails (F : NumFmt) :
-    ∃ (c : Cell F.Num) (tbl' : Table) (cx : CellX) (node : Umya.Spec.Xml.Node),
-      writeTo F [] c = some (tbl', some cx) ∧ cellNode 0 cx = some node ∧ docKind F c.raw = "" ∧
+/-- Repaired (fix 6 of C01; was the witness `C02_cell_lazy_fails`: an empty `<v></v>`, a NUMBER cell without
+    content): a value stored with `set_value_lazy` and never resolved is written as the typed value it stands
+    for, and an independent reader sees that value — lazy "42" is the number 42, lazy "x" under a formula the
+    text "x" with the formula. -/
+theorem C02_cell_lazy_decodes :
+    (∃ (tbl' : Table) (cx : CellX) (node : Umya.Spec.Xml.Node),
+      writeTo (textFmt []) [] { col := 1, row := 1, raw := .lazy ['4', '2'] } = some (tbl', some cx) ∧ cellNode 0 cx = some node ∧
       ∀ tbl'' : Table, Extends tbl'' tbl' →
-        (decodeCell (tbl''.map itemText) node).1.kind = "n" ∧ (decodeCell (tbl''.map itemText) node).1.value = [] := by
-  obtain ⟨tbl', cx, hw⟩ := C02_cell_written F [] { col := 1, row := 1, raw := .lazy ['4', '2'] } (Nat.le_refl 1) rfl
-  obtain ⟨_, _, _, node, hn, hd⟩ := writeTo_decodes F [] _ tbl' cx hw 0
-  refine ⟨_, tbl', cx, node, hw, hn, rfl, fun tbl'' hx => ?_⟩
-  rw [hd tbl'' hx]
-  exact ⟨rfl, rfl⟩
+        (decodeCell (tbl''.map itemText) node).1.kind = "n" ∧ (decodeCell (tbl''.map itemText) node).1.value = ['4', '2']) ∧
+    (∃ (tbl' : Table) (cx : CellX) (node : Umya.Spec.Xml.Node),
+      writeTo (textFmt []) [] { col := 1, row := 1, raw := .lazy ['x'], formula := some ['A', '2'] } = some (tbl', some cx) ∧
+      cellNode 0 cx = some node ∧
+      ∀ tbl'' : Table, Extends tbl'' tbl' →
+        (decodeCell (tbl''.map itemText) node).1.kind = "s" ∧ (decodeCell (tbl''.map itemText) node).1.value = ['x'] ∧
+        (decodeCell (tbl''.map itemText) node).1.formula = some ['A', '2']) := by
+  constructor
+  · obtain ⟨tbl', cx, hw⟩ := C02_cell_written (textFmt []) [] { col := 1, row := 1, raw := .lazy ['4', '2'] } (Nat.le_refl 1) (by decide)
+    obtain ⟨_, _, _, node, hn, hd⟩ := writeTo_decodes (textFmt []) [] _ tbl' cx hw 0
+    refine ⟨tbl', cx, node, hw, hn, fun tbl'' hx => ?_⟩
+    rw [hd tbl'' hx]
+    exact ⟨by decide, by decide⟩
+  · obtain ⟨tbl', cx, hw⟩ := C02_cell_written (textFmt []) [] { col := 1, row := 1, raw := .lazy ['x'], formula := some ['A', '2'] } (Nat.le_refl 1) (by decide)
+    obtain ⟨_, _, _, node, hn, hd⟩ := writeTo_decodes (textFmt []) [] _ tbl' cx hw 0
+    refine ⟨tbl', cx, node, hw, hn, fun tbl'' hx => ?_⟩
+    rw [hd tbl'' hx]
+    exact ⟨by decide, by decide, by decide⟩
 
 /-- The rule by which the check's view (`Driver/C02.lean::cellStr`, which calls this function) compares
     kinds: a formula cell whose cached string result is empty is the same as one without a cached result.
-    Under it the decoded kind of EVERY cell except an unresolved lazy value is the workbook's own kind
-    (`get_data_type`), the uncached formula included. -/
-theorem C02_cell_kind_normalised (F : NumFmt) (xf : Nat) (c : Cell F.Num) (hl : ∀ s, c.raw ≠ .lazy s) :
+    Under it the decoded kind of EVERY cell is the kind of the value written (`get_data_type` of the cell's value,
+    of what a lazy value stands for), the uncached formula included. -/
+theorem C02_cell_kind_normalised (F : NumFmt) (xf : Nat) (c : Cell F.Num) :
     normKind (fileView F xf c).formula (fileView F xf c).kind (fileView F xf c).value
-      = normKind c.formula (docKind F c.raw) (valueText F c.raw) := by
+      = normKind c.formula (docKind F (resolveRaw F c.raw)) (valueText F (resolveRaw F c.raw)) := by
   obtain ⟨col, row, raw, fo, styled⟩ := c
-  cases raw with
-  | lazy s => exact absurd rfl (hl s)
-  | empty => cases fo <;> simp [normKind, fileView, fileKind, docKind, valueText]
+  simp only [fileView, fileViewCore, Cell.resolved]
+  cases hr : resolveRaw F raw with
+  | lazy s => have := resolveRaw_not_lazy F raw; rw [hr] at this; cases this
+  | empty => cases fo <;> simp [normKind, fileKind, docKind, valueText]
   | _ => rfl
 
 /-- ONE SHEET: the `<c>` elements written for a list of cells (in the order of the row loop,
@@ -400,7 +416,8 @@ def demoF : NumFmt := textFmt []
 
 /-- two sheets with every kind, special characters, a repeated string (one `<si>`, two cells), a blank
     unstyled cell (not written), a styled blank cell (`<c r s/>`), formulas with every kind of cached value,
-    a formula without cached value, rich text under a formula and rich text without runs -/
+    a formula without cached value, rich text under a formula, rich text without runs, unresolved lazy values
+    (a number, the empty text = not written, a text under a formula) -/
 def demoBook : List (List (Cell demoF.Num)) :=
   [[{ col := 1, row := 1, raw := .str [' ', '&', '<', '\r', '\n', '"', ' '] },
     { col := 16384, row := 1, raw := .num ['4', '2', '.', '5'], formula := some [' ', 'A', '1', '<', 'B', '1', ' '] },
@@ -413,7 +430,10 @@ def demoBook : List (List (Cell demoF.Num)) :=
     { col := 4, row := 1, formula := some ['A', '1'] },
     { col := 5, row := 1, raw := .rich [{ text := ['x'] }, { text := ['y'], font := some 2 }], formula := some ['B', '1'] },
     { col := 6, row := 1, raw := .rich [] },
-    { col := 7, row := 1, raw := .bool false }]]
+    { col := 7, row := 1, raw := .bool false },
+    { col := 8, row := 1, raw := .lazy ['4', '2'] },
+    { col := 9, row := 1, raw := .lazy [] },
+    { col := 10, row := 1, raw := .lazy ['a', 'b', 'c'], formula := some ['A', '1'] }]]
 
 /-- `C02_book_written`, `C02_book_cells_decode`, `C02_book_cell_decodes`: the hypotheses are satisfiable -/
 example : ∀ s ∈ demoBook, ∀ c ∈ s, 1 ≤ c.col := by decide
@@ -426,10 +446,11 @@ example : ∃ b, writeBook demoF true demoBook = some b ∧
   exact ⟨b, hb, C02_book_cells_decode demoF true demoBook b hb _⟩
 
 /-- … and what the decoder must find there is not trivial: the kinds, the value texts and the styles of
-    the kept cells (4 of 5 and 7 of 7) -/
+    the kept cells (4 of 5 and 9 of 10) -/
 example : (viewSheets demoF (fun _ _ => 3) 0 (normalize demoF demoBook)).map (fun l => l.map (fun p => (p.1.kind, String.ofList p.1.value, p.1.style)))
     = [[("s", " &<\r\n\" ", 0), ("n", "42.5", 0), ("", "", 3), ("e", "#N/A", 0)],
-       [("s", " ab\r", 0), ("b", "TRUE", 0), ("s", " &<\r\n\" ", 3), ("s", "", 0), ("s", "xy", 0), ("s", "", 0), ("b", "FALSE", 0)]] := by
+       [("s", " ab\r", 0), ("b", "TRUE", 0), ("s", " &<\r\n\" ", 3), ("s", "", 0), ("s", "xy", 0), ("s", "", 0), ("b", "FALSE", 0),
+        ("n", "42", 0), ("s", "abc", 0)]] := by
   decide
 
 /-- `C02_cell_decodes`, `C02_cell_written`: a padded text cell under a formula at XFD1048576, against a
@@ -442,10 +463,13 @@ example : ∃ tbl' cx, writeTo demoF [{ text := some ['q'] }]
 example : (∀ c ∈ Umya.Xml.escape ['a', '<', '\r', ' '], Umya.Spec.Xml.isXmlChar c = true) ∧ '<' ∉ Umya.Xml.escape ['a', '<', '\r', ' '] := by
   decide
 
-/-- `C02_cell_kind_partial`, `C02_cell_decodes_plain_partial`, `C02_cell_kind_normalised` -/
+/-- `C02_cell_kind_partial`, `C02_cell_decodes_plain_partial`: a rich text under a formula, a lazy number, a lazy
+    text under a formula are `plainKind`; a lazy "" under a formula is a formula without cached value -/
 example : plainKind demoF { col := 1, row := 1, raw := .rich [], formula := some ['A', '1'] } = true ∧
-    (∀ s, ({ col := 4, row := 1, formula := some ['A', '1'] } : Cell demoF.Num).raw ≠ .lazy s) := by
-  refine ⟨by decide, fun s h => by cases h⟩
+    plainKind demoF { col := 1, row := 1, raw := .lazy ['4', '2'] } = true ∧
+    plainKind demoF { col := 1, row := 1, raw := .lazy ['a'], formula := some ['A', '1'] } = true ∧
+    plainKind demoF { col := 1, row := 1, raw := .lazy [], formula := some ['A', '1'] } = false := by
+  decide
 
 /-- `C02_si_decodes`, `C02_sst_decodes`: a table with a padded text, an empty text and a rich text -/
 example : ([{ text := some [' ', 'a', '&'] }, { text := some [] }, { rich := some [{ text := ['x'] }, { text := ['y', ' '], font := some 1 }] }] : Table).map itemText
